@@ -79,7 +79,7 @@ def run_value_conformance(c, kind, trace_module, gen_module, gen_cfg, gen_subst,
             raise Infra("the driver made a call outside the domain of the property: %s" % events[idx][:300])
         cls = dict(value="wrong-output", length="wrong-length", error="unexpected-error", panic="panic").get(verdict, verdict)
         if verdict == "panic" and e["nbits"] == 0:
-            cls = "panic-empty-message"
+            cls = "nia1-panic-empty-message" if (e["alg"] == 1 and kind == "mac" and e["pfn"].endswith("security.NIA1")) else "panic-empty-input"
         if verdict == "panic" and not e.get("plib"):
             raise Infra("panic outside the library in the driver: %s" % e.get("pfn"))
         what = "%s alg=%d bearer=%d dir=%d nbits=%d: %s (key=%s count=%s)" % (
